@@ -4,7 +4,7 @@ from hypothesis import strategies as st
 from vlib.runner import Check, Outcome, InvalidCase
 from vlib.interp import execute, num
 from vlib.probe import Probe
-from vlib.scopelog import Structure, by_activity
+from vlib.scopelog import foreign_exception, Structure, by_activity
 
 DUR = [None, 0, 0, 0.5, 1, 1, 2, 2, 3, 5, 4, 6, 7, 1.5, 2.5]
 
@@ -94,6 +94,10 @@ def judge(out, case, it, oc, exc, ctx):
     if oc != 'ok':
         out.fail('run_outcome', ('exc:' + type(exc).__name__) if oc == 'exc' else oc, '%r;%s' % (exc, ctx))
         return
+    fe = foreign_exception(it.log, it.end_seq)
+    if fe:
+        out.fail('run_outcome', 'activity_exc:%s' % fe[1][1], '%s%s ended with %r, which the program did not raise;%s' % (
+            fe[0][1], fe[0][2], fe[1], ctx))
     S = Structure(prog)
     log = [e for e in it.log if e[0] <= it.end_seq]
     per = by_activity(it.log, it.end_seq)
